@@ -33,12 +33,13 @@ type Bind struct {
 // Tmpl is an SQL template: positional ('?', Slots) or named ('@name', Refs in
 // order of occurrence, Binds sorted by name, Carrier says how they are passed).
 type Tmpl struct {
-	SQL     string   `json:"sql"`
-	Slots   []Slot   `json:"slots,omitempty"`
-	Refs    []string `json:"refs,omitempty"`
-	Binds   []Bind   `json:"binds,omitempty"`
-	Carrier string   `json:"carrier,omitempty"` // named | map | struct
-	NoParen bool     `json:"noparen,omitempty"` // clause.Expr{WithoutParentheses: true}
+	SQL        string   `json:"sql"`
+	Slots      []Slot   `json:"slots,omitempty"`
+	Refs       []string `json:"refs,omitempty"`
+	Binds      []Bind   `json:"binds,omitempty"`
+	Carrier    string   `json:"carrier,omitempty"`    // named | map | struct
+	CarrierPtr bool     `json:"carrierptr,omitempty"` // the struct carrier is passed by pointer
+	NoParen    bool     `json:"noparen,omitempty"`    // clause.Expr{WithoutParentheses: true}
 }
 
 // Named reports whether the template uses @name arguments.
@@ -74,6 +75,10 @@ type Unit struct {
 	Cl    *Cl      `json:"cl,omitempty"`
 	Group []Cond   `json:"group,omitempty"`
 	PK    *Val     `json:"pk,omitempty"`
+	// MapType: "" = map[string]interface{}, "ss" = map[string]string, "ii" = map[interface{}]interface{} (one key)
+	MapType string `json:"maptype,omitempty"`
+	// Fields: Where(&X{…}, "col", …): only the named fields are conditions, zero values included
+	Fields []string `json:"fields,omitempty"`
 }
 
 // Cond is one Where/Not/Or call (or a Clauses(expr...) call adding conditions).
@@ -110,10 +115,11 @@ type Chain struct {
 	Kind string `json:"kind"` // query update delete create save firstor raw exec
 	// Base: "item" | "owner" | "tag" = Model(&X{}); "t:items" … = Table(name);
 	// "sub" = Table("(?) AS t", Sub)
-	Base     string `json:"base"`
-	Sub      *Chain `json:"sub,omitempty"`
-	ModelID  int64  `json:"modelid,omitempty"` // Model(&X{ID: n})
-	Unscoped bool   `json:"unscoped,omitempty"`
+	Base     string  `json:"base"`
+	Sub      *Chain  `json:"sub,omitempty"`
+	ModelID  int64   `json:"modelid,omitempty"`  // Model(&X{ID: n})
+	ModelIDs []int64 `json:"modelids,omitempty"` // Model(&[]X{{ID: a}, {ID: b}}) (updates)
+	Unscoped bool    `json:"unscoped,omitempty"`
 
 	SelCols   []string `json:"selcols,omitempty"`
 	Sel       *Tmpl    `json:"sel,omitempty"`
@@ -133,7 +139,7 @@ type Chain struct {
 	Inline   *Unit  `json:"inline,omitempty"`
 	PluckCol string `json:"pluckcol,omitempty"`
 
-	UpKind  string   `json:"upkind,omitempty"` // update updates-map updates-struct updatecolumn updatecolumns-map updatecolumns-struct
+	UpKind  string   `json:"upkind,omitempty"` // update updates-map updates-struct updatecolumn updatecolumns-map updatecolumns-struct updates-self (db.Updates(&X{ID: n, …}) without Model)
 	SetKeys []string `json:"setkeys,omitempty"`
 	SetVals []Arg    `json:"setvals,omitempty"`
 	SetRec  *Rec     `json:"setrec,omitempty"`
@@ -209,7 +215,11 @@ func (t *Tmpl) String() string {
 		b.WriteString(s.A.String())
 	}
 	if t.Named() {
-		b.WriteString(", " + t.Carrier + "{")
+		carrier := t.Carrier
+		if t.CarrierPtr {
+			carrier = "&" + carrier
+		}
+		b.WriteString(", " + carrier + "{")
 		for i, bd := range t.Binds {
 			if i > 0 {
 				b.WriteString(", ")
@@ -289,14 +299,18 @@ func (u Unit) String() string {
 	case "tmpl", "named":
 		return u.T.String()
 	case "map":
-		return kvString(u.Keys, u.Vals)
+		return u.MapType + kvString(u.Keys, u.Vals)
 	case "colval":
 		return strconv.Quote(u.Keys[0]) + ", " + u.Vals[0].String()
 	case "struct":
+		out := u.Rec.String()
 		if u.Ptr {
-			return "&" + u.Rec.String()
+			out = "&" + out
 		}
-		return u.Rec.String()
+		if len(u.Fields) > 0 {
+			out += ", fields(" + strings.Join(u.Fields, ",") + ")"
+		}
+		return out
 	case "clause":
 		return u.Cl.String()
 	case "group":
@@ -336,6 +350,9 @@ func (c *Chain) String() string {
 		if c.CrKind == "map" || c.CrKind == "maps" {
 			b.WriteString(".Model(&" + c.Base + "{})")
 		}
+	case c.UpKind == "updates-self":
+	case len(c.ModelIDs) > 0:
+		fmt.Fprintf(&b, ".Model(&[]%s{ids %v})", c.Base, c.ModelIDs)
 	default:
 		if c.ModelID != 0 {
 			fmt.Fprintf(&b, ".Model(&%s{ID: %d})", c.Base, c.ModelID)
@@ -446,7 +463,7 @@ func (c *Chain) String() string {
 		case "updates-map", "updatecolumns-map":
 			b.WriteString("." + map[string]string{"updates-map": "Updates", "updatecolumns-map": "UpdateColumns"}[c.UpKind] + "(" + kvString(c.SetKeys, c.SetVals) + ")")
 		default:
-			b.WriteString("." + map[string]string{"updates-struct": "Updates", "updatecolumns-struct": "UpdateColumns"}[c.UpKind] + "(" + c.SetRec.String() + ")")
+			b.WriteString("." + map[string]string{"updates-struct": "Updates", "updatecolumns-struct": "UpdateColumns", "updates-self": "Updates"}[c.UpKind] + "(" + c.SetRec.String() + ")")
 		}
 	case "delete":
 		if c.DelRec != nil {
